@@ -2,7 +2,7 @@
 # usage: tools/tryn2.sh M1 ...  -- build /tmp/nw2/<M> from /tmp/neutral2/<M>/refactor.diff and run every claimed check on it (must be silent)
 for m in "$@"; do
   t=/tmp/nw2/$m
-  if [ ! -d $t ]; then mkdir -p $t && git -C /repo archive HEAD | tar -x -C $t && ( cd $t && patch -s -p1 < /tmp/neutral2/$m/refactor.diff ) || { echo "cannot build $t"; continue; }; fi
+  if [ ! -d $t ]; then mkdir -p $t && git -C /repo archive HEAD | tar -x -C $t && ( cd $t && patch -s -p1 < $( [ -f /verif/neutral/$m/refactor.diff ] && echo /verif/neutral/$m/refactor.diff || echo /tmp/neutral2/$m/refactor.diff ) ) || { echo "cannot build $t"; continue; }; fi
   cd /verif
   for p in $(jq -r '.checks[].property_id' /verif/MANIFEST.json); do
     ( out=$(ONSAGER_REPO=$t SA_NOWRITE=1 /venv/bin/python -m sa.cli check $p --tier quick 2>&1)
